@@ -38,7 +38,9 @@ SCOPES = {
     "quick": dict(kc=[dict(R=1, MaxT=2, MaxLen=2, P=4, MaxK=3, MetricsUsed=["l1"]),
                       dict(R=2, MaxT=3, MaxLen=2, P=4, MaxK=3, MetricsUsed=["l1"]),
                       dict(R=3, MaxT=3, MaxLen=1, P=4, MaxK=3, MetricsUsed=["l2sq"])],
-                  ops=[dict(R=2, MinN=1, MaxN=4, NegV=2, MaxV=2), dict(R=3, MinN=1, MaxN=4, NegV=1, MaxV=2)]),
+                  ops=[dict(R=2, MinN=1, MaxN=4, NegV=2, MaxV=2), dict(R=3, MinN=1, MaxN=4, NegV=1, MaxV=2),
+                       # four ranks: every (not necessarily packed) layout of up to two local elements per rank
+                       dict(R=4, MinN=1, MaxN=1, NegV=0, MaxV=1)]),
     "thorough": dict(kc=[dict(R=1, MaxT=2, MaxLen=2, P=4, MaxK=3, MetricsUsed=["l1"]),
                          dict(R=2, MaxT=3, MaxLen=2, P=5, MaxK=3, MetricsUsed=["l1", "l2sq"]),
                          dict(R=3, MaxT=4, MaxLen=2, P=4, MaxK=3, MetricsUsed=["l1"]),
@@ -239,7 +241,11 @@ def ops_case(case):
     R, garr, op = case["R"], case["garr"], case["op"]
     bad = []
     worlds = []
-    for perm in itertools.permutations(range(R)):
+    perms = list(itertools.permutations(range(R)))
+    if R >= 4:          # 24 arrival orders and more: ascending, descending and two that rotate with the case
+        h = sum(case["nloc"]) * 7 + case["gidx"] * 13 + len(garr)
+        perms = [perms[0], perms[-1], perms[h % len(perms)], perms[(h * 5 + 11) % len(perms)]]
+    for perm in perms:
         def sched(runnable, epoch, perm=perm):
             return min(runnable, key=lambda r: perm.index(r))
 
